@@ -45,9 +45,11 @@ Match(F) == LET e == RoundOf(Ev)  n == rounds'[Len(rounds')] IN \A f \in F : (f 
 LabelOK == Ev.p[2] = 0 \/ cfg.rule = "PluralityVeto" \/ plabel' = Rat2(Ev.p)            \* p = [0,0]: probability not logged (sampled run)
 ThrOK == Ev.thr < 0 \/ thr' = Ev.thr
 VOrderOK == cfg.rule # "PluralityVeto" \/ status' # "running" \/ vorder' = VOrderOf(Ev.vorder)
+(* the stored round number of the new state is its position in election_states (rounds[1] is round 0); rn = -1: not logged *)
+RnOK == Ev.rn < 0 \/ Ev.rn = Len(rounds)
 RoundStep(F, withLabel) ==
   /\ Next /\ Len(rounds') = Len(rounds) + 1 /\ status' # "ValueError"
-  /\ Match(F) /\ ThrOK /\ VOrderOK /\ (withLabel => LabelOK)
+  /\ Match(F) /\ ThrOK /\ VOrderOK /\ (withLabel => LabelOK /\ RnOK)
 ErrorStep == Next /\ status' = Ev.class
 
 \* ------------------------------------------------------------------ queries on a finished election (C09)
@@ -118,7 +120,7 @@ Clause ==
   ELSE IF ~ENABLED RoundStep({"elected", "eliminated", "tiebreaks", "bag"}, FALSE) THEN "Bag"
   ELSE IF ~ENABLED RoundStep({"elected", "eliminated", "tiebreaks", "bag", "scores"}, FALSE) THEN "Scores"
   ELSE IF ~ENABLED RoundStep(AllFields, FALSE) THEN "Remaining"
-  ELSE IF ~ENABLED RoundStep(AllFields, TRUE) THEN "Label"
+  ELSE IF ~ENABLED RoundStep(AllFields, TRUE) THEN (IF RnOK THEN "Label" ELSE "RoundNumber")
   ELSE "Threshold"
 
 (* the logged round can only be adopted as the next state if it is internally coherent: tallies for exactly the standing candidates *)
